@@ -115,7 +115,10 @@ def solve_case(N, bx, r, eps, f_u, density=None, pre=0, coarse=None, holder=None
 def judge(N, r, eps, L, fstar, sol, order, m):
     """-> (status, message, ratio)"""
     n = sol.numberOfGlobalTrials
-    if not (sol.solutionAccuracy < eps and n < LIMIT):
+    # Solve has two ways to stop: the iteration limit and the accuracy criterion.  A Solve that returns with fewer
+    # trials than the limit stopped by accuracy whatever accuracy it reports (that report is C03's subject), and its
+    # result must carry the certificate for the eps the user asked for
+    if not n < LIMIT:
         return "no_accuracy_stop", None, None
     ref = RefAGP(N, r)
     k0 = None
@@ -247,6 +250,11 @@ def plan_families(ctx):
             for eps in (0.01, 0.001):
                 for L, r in ((1.0, 2.0), (3.0, 3.5), (10.0, 8.0)) if th else ((3.0, 3.5),):
                     tasks.append(dict(N=1, box="B0", r=r, eps=eps, kind="zig", par=[list(slopes), L], pre=pre))
+    # eps on both sides of the curve's grid step 2^-m (for N = 1 the curve is exact and eps is the user's, whatever m is)
+    for slopes in itertools.product((-1, 0, 1), repeat=5):
+        for eps, m in ((1e-4, None), (2e-5, None), (3e-3, 8), (3e-3, 6), (1e-4, 14)) if th else ((1e-4, None), (3e-3, 6)):
+            for L, r in ((1.0, 2.0), (3.0, 3.5)):
+                tasks.append(dict(N=1, box="B1", r=r, eps=eps, kind="zig", par=[list(slopes), L], density=m))
     # a user Problem that returns a new value holder; integer-typed bounds
     for slopes in itertools.product((-1, 0, 1), repeat=5):
         for L, r in ((1.0, 2.0), (3.0, 3.5)):
@@ -267,6 +275,15 @@ def plan_families(ctx):
             for L, r in ((1.0, 2.5), (3.0, 3.5)) if not th else ((1.0, 2.5), (3.0, 3.5), (10.0, 8.0)):
                 tasks.append(dict(N=1, box="B1", r=r, eps=0.005, kind="cone", coarse=coarse,
                                   par=[[[0.0, L, [c]], [0.15 * L, 0.7 * L, [c2]]], 2]))
+    # ... and with a decoy almost as deep as the global basin (the refinement of the coarse stage ends at the bottom of
+    # the decoy; the global basin's part below that value is a narrow core inside a wide skirt)
+    cs = (0.07, 0.2, 0.4057, 0.55, 0.7246, 0.9)
+    for c, c2 in itertools.permutations(cs, 2):
+        for dv in (0.005, 0.0133) if not th else (0.005, 0.0133, 0.04, 0.1):
+            for coarse in (0.9, 0.5, 0.2) if not th else (0.9, 0.5, 0.3, 0.2, 0.1):
+                for L, r in ((2.0, 4.5),) if not th else ((2.0, 4.5), (1.0, 2.5), (5.0, 10.5)):
+                    tasks.append(dict(N=1, box="B0", r=r, eps=5e-4, kind="cone", coarse=coarse,
+                                      par=[[[0.0, L, [c]], [dv * L, L, [c2]]], 2]))
     lat = (0.0, 1.0 / 3.0, 0.5, 1.0)
     epsN = {1: (0.1, 0.01), 2: (0.1, 0.03), 3: (0.2, 0.1), 4: (0.3, 0.2), 5: (0.3, 0.2)}
     if th:
